@@ -372,6 +372,7 @@ type sanAnalysis struct {
 	rs        []rune
 	clauses   []pwClause
 	passwords []string // from ParseQuery, in order
+	names     []string // user names of the password statements
 	strings_  []string // stmt.String() of the password statements
 	blanked   []string // stmt.String() with the password replaced
 	expected  string   // the text with every password literal replaced by [REDACTED]
@@ -392,12 +393,14 @@ func sanAnalyse(text string) (*sanAnalysis, string) {
 		switch s := st.(type) {
 		case *influxql.CreateUserStatement:
 			a.passwords = append(a.passwords, s.Password)
+			a.names = append(a.names, s.Name)
 			a.strings_ = append(a.strings_, s.String())
 			c := *s
 			c.Password = "\x01other\x02"
 			a.blanked = append(a.blanked, c.String())
 		case *influxql.SetPasswordUserStatement:
 			a.passwords = append(a.passwords, s.Password)
+			a.names = append(a.names, s.Name)
 			a.strings_ = append(a.strings_, s.String())
 			c := *s
 			c.Password = "\x01other\x02"
@@ -481,7 +484,7 @@ func propSanitizeText(args []string) string {
 		pw := []rune(a.passwords[k])
 		for i := 0; i+3 <= len(pw); i++ {
 			w := string(pw[i : i+3])
-			if allMarkers(w) && strings.Contains(a.strings_[k], w) && !strings.Contains(a.clauses[k].name.lit, w) {
+			if allMarkers(w) && strings.Contains(a.strings_[k], w) && !strings.Contains(a.names[k], w) {
 				return fmt.Sprintf("String() = %q contains the password fragment %q", a.strings_[k], w)
 			}
 		}
